@@ -820,7 +820,21 @@ func PluginUniverse() map[string]*File {
 			{Name: "Tree", Fields: []F{one("range", 1, "message", ".verif.ex.Leaf")}},
 		},
 		Exts: ExtSet("ex")}
-	return map[string]*File{"A": a, "B": b, "C": c, "D": d, "E": e, "xa2": cross[2], "xbe": cross[0]}
+	// F: named by an ABSOLUTE path (unusual but a valid request): nothing in the output may be made
+	// relative to where the plugin happens to run
+	f := &File{Name: "/verifabs/fz/fz.proto", Pkg: "verif.fz", GoPkg: "fz", Group: "fz",
+		Msgs: []M{{Name: "Far", Fields: []F{one("a", 1, "int32"), rep("b", 2, "string")}}}}
+	// G and H: two more files of A's Go package that both import E (another Go package); G uses
+	// it, H does not (an unused import is still linked). G's descriptor is larger than 8 KiB.
+	var big []F
+	for i := 1; i <= 233; i++ {
+		big = append(big, one(fmt.Sprintf("column_with_a_rather_long_name_%03d", i), int32(i), []string{"int64", "string", "bytes", "double"}[i%4]))
+	}
+	g := &File{Name: "verif/xb/xb3.proto", Pkg: "verif.xb", GoPkg: "xb", Group: "x", Deps: []string{"verif/ex/ex.proto"},
+		Msgs: []M{{Name: "Uses", Fields: []F{one("l", 1, "message", ".verif.ex.Lone")}}, {Name: "BigRow", Fields: big}}}
+	h := &File{Name: "verif/xb/xb4.proto", Pkg: "verif.xb", GoPkg: "xb", Group: "x", Deps: []string{"verif/ex/ex.proto"},
+		Msgs: []M{{Name: "UsesNot", Fields: []F{one("a", 1, "int32")}}}}
+	return map[string]*File{"A": a, "B": b, "C": c, "D": d, "E": e, "F": f, "G": g, "H": h, "xa2": cross[2], "xbe": cross[0]}
 }
 
 // AllStatic returns the static corpus in dependency order.
